@@ -2,3 +2,4 @@ import OpwVerif.Num
 import OpwVerif.Geom
 import OpwVerif.Kin
 import OpwVerif.Wrappers
+import OpwVerif.Misc
